@@ -12,6 +12,8 @@ import (
 
 	data "github.com/regen-network/regen-ledger/x/data/v3"
 	base "github.com/regen-network/regen-ledger/x/ecocredit/v3/base/types/v1"
+	basket "github.com/regen-network/regen-ledger/x/ecocredit/v3/basket/types/v1"
+	market "github.com/regen-network/regen-ledger/x/ecocredit/v3/marketplace/types/v1"
 
 	"verif/harness/chain"
 	"verif/harness/monitor"
@@ -94,11 +96,42 @@ func paramsVariants() []genesisVariant {
 // expectation in the item note ("expect-ok|<slug>-blocks-<op>|...") for monitor C18.
 func (g *G) probe(slug string, expect bool) {
 	a := g.App
+	// the expectation is keyed by the parameter value that governs the operation in the CURRENT
+	// state (a value set by genesis stays in force until a governance message replaces it)
+	_ = slug
+	v0 := g.V()
+	from := func(param string) string {
+		if g.paramFromGov[param] {
+			return ""
+		}
+		return "-genesis"
+	}
+	feeSlug := func(name string, f *monitor.CoinV, param string) string {
+		switch {
+		case f == nil:
+			return name + "-fee-unset" + from(param)
+		case f.Amount != nil && f.Amount.Sign() == 0:
+			return "zero-fee" + from(param)
+		}
+		return name + "-fee-positive-" + f.Denom + from(param)
+	}
+	slugOf := map[string]string{
+		"create-class":      feeSlug("class", v0.ClassFee, "ClassFee"),
+		"basket-create":     feeSlug("basket", v0.BasketFee, "BasketFee"),
+		"sell":              "allowed-denoms(" + strings.Join(sortedDenoms(v0.AllowedDenoms), ",") + ")",
+		"update-sell-order": "allowed-denoms(" + strings.Join(sortedDenoms(v0.AllowedDenoms), ",") + ")",
+		"buy-direct":        fmt.Sprintf("fee-params(%s,%s)%s", label(v0.BuyerFee), label(v0.SellerFee), from("FeeParams")),
+		"put":               "any-params",
+		"take":              "any-params",
+	}
+	if v0.AllowlistOn {
+		slugOf["create-class"] += "+allowlist-on" + from("Allowlist")
+	}
 	note := func(op, desc string) string {
 		if !expect {
-			return "probe " + op + " under " + slug + " (genesis validation rejected this value; no expectation)"
+			return "probe " + op + " (genesis validation rejected this configuration; no expectation)"
 		}
-		return "expect-ok|" + slug + "-blocks-" + op + "|" + desc + " under parameter configuration " + slug
+		return "expect-ok|" + slugOf[op] + "-blocks-" + op + "|" + desc + " under parameter configuration " + slugOf[op]
 	}
 	v := g.V()
 	funded := func(u int, c *sdk.Coin) bool {
@@ -205,9 +238,20 @@ func runParams(c Cfg) *Result {
 	for b := 0; b < nBlocks; b++ {
 		g.Begin(g.nextTime())
 		p := pms[g.R.Intn(len(pms))]
-		res := g.Do(p.msg(), "gov: parameter "+p.slug)
+		m := p.msg()
+		res := g.Do(m, "gov: parameter "+p.slug)
 		g.bump("param:" + strings.SplitN(p.slug, "(", 2)[0])
 		if res.OK {
+			switch m.(type) {
+			case *base.MsgUpdateClassFee:
+				g.paramFromGov["ClassFee"] = true
+			case *basket.MsgUpdateBasketFee:
+				g.paramFromGov["BasketFee"] = true
+			case *market.MsgGovSetFeeParams:
+				g.paramFromGov["FeeParams"] = true
+			case *base.MsgSetClassCreatorAllowlist:
+				g.paramFromGov["Allowlist"] = true
+			}
 			g.probe(p.slug, true)
 		}
 		g.Commit()
@@ -314,6 +358,9 @@ func runGenesis(c Cfg) *Result {
 		sub.RTPoints = 1 + int(c.Seed%3)
 		return Run(sub)
 	}
+	if c.N%4 == 3 {
+		return runGenesisData(c)
+	}
 	g := NewG(c, chain.Options{GenesisTime: time.Date(1985, 6, 1, 0, 0, 0, 0, time.UTC)})
 	g.badPct = 10
 	a := g.App
@@ -367,14 +414,40 @@ func runGenesis(c Cfg) *Result {
 		g.Do(a.MsgSell(1, chain.SellOrder(dEq, "1.50", coin("uatom", 5), false, ptr(g.now.Add(time.Hour)))), "sell order with a non-canonical quantity")
 		g.bump("sell-order-quantity-scientific-notation")
 	}
-	g.Do(a.MsgDefineResolver(3, "https://public.example/data", true), "public resolver")
-	g.Do(a.MsgDefineResolver(3, "https://private.example/data", false), "private resolver")
-	g.Do(a.MsgAnchor(0, chain.RawHash(hash32("genesis-raw"), "pdf")), "anchor")
-	g.bump("public-resolver")
 	g.Commit()
 	g.GenesisRT("boundary stream")
 	g.blocks(2+g.R.Intn(3), 2, 6, mixOps)
 	g.GenesisRT("after random ops")
+	return g.Finish()
+}
+
+// runGenesisData is the data-module part of the genesis boundary stream (data messages live in
+// traces of their own): public and private resolvers, anchors, attestations, registrations.
+func runGenesisData(c Cfg) *Result {
+	g := NewG(c, chain.Options{GenesisTime: T0})
+	a := g.App
+	g.Begin(g.now.Add(6 * time.Second))
+	raw := chain.RawHash(hash32("genesis-raw"), "pdf")
+	gr := chain.GraphHash(hash32("genesis-graph"))
+	g.Do(a.MsgAnchor(0, raw), "anchor")
+	g.Do(a.MsgAttest(1, gr), "attest")
+	pub := g.R.Bool()
+	if pub || c.N%8 == 3 {
+		g.Do(a.MsgDefineResolver(3, "https://public.example/data", true), "public resolver")
+		g.bump("public-resolver")
+	}
+	g.Do(a.MsgDefineResolver(3, "https://private.example/data", false), "private resolver")
+	g.Commit()
+	g.GenesisRT("data boundary stream")
+	g.Begin(g.nextTime())
+	for _, id := range sortedU64Keys(g.V().Resolvers) {
+		g.Do(a.MsgRegisterResolver(3, id, raw, &data.ContentHash{Graph: gr}), "register")
+		g.Do(a.MsgRegisterResolver(4, id, raw), "register by another account")
+	}
+	g.Do(a.MsgAttest(1, gr), "attest again")
+	g.Do(a.MsgAttest(2, gr), "attest by another account")
+	g.Commit()
+	g.GenesisRT("data boundary stream, with registrations")
 	return g.Finish()
 }
 
@@ -421,6 +494,14 @@ func runData(c Cfg) *Result {
 		for i := 0; i < k; i++ {
 			v := g.V()
 			switch r := g.R.Intn(100); {
+			case r < 4:
+				bad := chain.RawHash(contents[0], "pdf")
+				bad.Raw.DigestAlgorithm = 0
+				g.Do(a.MsgAnchor(g.user(), bad), "anchor: unspecified digest algorithm")
+			case r < 7:
+				gh := graph()
+				gh.CanonicalizationAlgorithm = 0
+				g.Do(a.MsgAttest(g.user(), gh), "attest: unspecified canonicalization algorithm")
 			case r < 35:
 				g.Do(a.MsgAnchor(g.user(), any()), "anchor")
 			case r < 60:
